@@ -152,6 +152,10 @@ func planC16(c *Ctx, run int64) *Plan {
 			mk(Op{K: "stamp", S: s, S2: "value-of-" + s})
 		}
 	}
+	if Chance(r, 0.2) {
+		// a source produced elsewhere: valid, digest matching, but not in this library's normal form
+		mk(Op{K: "denorm"})
+	}
 	signed := stampMode == 3 || Chance(r, 0.4)
 	if signed {
 		mk(Op{K: "sign", I: int64(r.IntN(3))})
@@ -375,6 +379,36 @@ func execC16(x *X) {
 			}
 		case "stamp":
 			src.Head.AddStamp(&head.Stamp{Provider: cbc.Key(op.S), Value: op.S2})
+		case "denorm":
+			// rewrite percentages "21.0%" as "21%" (same value, other precision) and recompute the
+			// digest WITHOUT calculating: what another implementation or an older release stores
+			b := Marshal(src)
+			v, err := ParseJV(b)
+			if err != nil {
+				break
+			}
+			n := 0
+			for _, nd := range Walk(v.Get("doc"), "/doc") {
+				if nd.V.K == 's' && strings.HasSuffix(nd.V.S, ".0%") && nd.Key == "percent" {
+					nd.V.S = strings.TrimSuffix(nd.V.S, ".0%") + "%"
+					n++
+				}
+			}
+			if n == 0 {
+				break
+			}
+			e2, err := ParseEnv(v.Encode(nil))
+			if err != nil {
+				break
+			}
+			if dg, err := e2.Digest(); err == nil {
+				e2.Head.Digest = dg
+				if e2.Validate() == nil {
+					src = e2
+					srcTree, _ = ParseJV(Marshal(src))
+					x.Probe("source-not-in-normal-form")
+				}
+			}
 		case "sign":
 			if err := src.Sign(PrivKey(int(op.I))); err == nil && len(src.Head.Stamps) > 0 {
 				signedStamped = true
